@@ -89,18 +89,33 @@ fn ending(t: &mut Tape, dtls: bool, valid: &[u8]) -> (&'static str, Vec<u8>) {
             ("unknown-content-type", b)
         }
         _ => {
-            // well-framed record with malformed content
+            // well-framed (complete) record with malformed or degenerate content: bad CCS byte, alert of 0/1/3 bytes, handshake of 0..11 bytes, empty CCS
+            let (ct, body): (u8, Vec<u8>) = match t.below(6) {
+                0 => (0x14, vec![0u8, 1]),
+                1 => (0x15, vec![]),
+                2 => (0x15, vec![2]),
+                3 => {
+                    let n = t_below(t, 12);
+                    (0x16, t.bytes(n))
+                }
+                4 => (0x14, vec![]),
+                _ => (0x15, vec![1, 0, 2]),
+            };
             let mut e = Enc::new();
-            e.u8(0x14);
+            e.u8(ct);
             e.u16(if dtls { 0xfefd } else { 0x0303 });
             if dtls {
                 e.u16(0);
                 e.u48(1);
             }
-            e.vec(2, "rec.len", &[0u8, 1]);
+            e.vec(2, "rec.len", &body);
             ("malformed-content", e.buf)
         }
     }
+}
+
+fn t_below(t: &mut Tape, n: usize) -> usize {
+    t.below(n)
 }
 
 fn tls_many(t: &mut Tape, obs: &mut Obs) -> R {
